@@ -186,6 +186,8 @@ theorem act_grow (c : Conn) (f : Bool) (a : Act) : Grow c (act c f a) := by
     · exact Grow.rfl' c
   | stopRead => simp only [act]; exact handOff_grow _ _ _ _ _ (stopReadInLoop_grow _)
   | startRead => simp only [act]; exact handOff_grow _ _ _ _ _ (startReadInLoop_grow _)
+  | setWc k => exact Grow.same rfl rfl rfl rfl rfl rfl rfl
+  | setHwm k m => exact Grow.same rfl rfl rfl rfl rfl rfl rfl
 
 theorem callback_grow (c : Conn) (k : Cb) (e : Ev) : Grow c (callback c k e) := by
   unfold callback; split
@@ -566,14 +568,32 @@ theorem Released.of_still {c c' : Conn} (hr : Released c) (h : Still c c') : Rel
 theorem LifeInv.released {c : Conn} (hl : LifeInv c) (ho : c.owner = false) (ha : c.alive = true) : Released c :=
   ⟨hl.ownerGone ho, ha, ho, hl.notDead, (hl.quiet (hl.ownerGone ho)).1, (hl.quiet (hl.ownerGone ho)).2⟩
 
-/-- on the loop thread every user operation on a connection that is down does nothing -/
-theorem act_down_loop (c : Conn) (a : Act) (h : c.st = .kDisconnected) : act c false a = c := by
-  cases a <;> simp [act, h, sendAcceptsPiece, shutdownAccepts, forceCloseAccepts, forceCloseDelayAccepts, handOff,
+/-- on the loop thread every user operation on a connection that is down does nothing (installing a callback
+stores it, of course) -/
+theorem act_down_loop (c : Conn) (a : Act) (h : c.st = .kDisconnected)
+    (h1 : ∀ k, a ≠ .setWc k) (h2 : ∀ k m, a ≠ .setHwm k m) : act c false a = c := by
+  cases a with
+  | setWc k => exact absurd rfl (h1 k)
+  | setHwm k m => exact absurd rfl (h2 k m)
+  | _ => simp [act, h, sendAcceptsPiece, shutdownAccepts, forceCloseAccepts, forceCloseDelayAccepts, handOff,
     stopReadDispatch, startReadDispatch, stopReadInLoop, startReadInLoop, stopReadActs, startReadActs]
+
+theorem act_down_still (c : Conn) (a : Act) (h : c.st = .kDisconnected) : Still c (act c false a) := by
+  cases a with
+  | setWc k => exact ⟨rfl, rfl, rfl, rfl, rfl, rfl, rfl, rfl⟩
+  | setHwm k m => exact ⟨rfl, rfl, rfl, rfl, rfl, rfl, rfl, rfl⟩
+  | send d => rw [act_down_loop _ _ h (by simp) (by simp)]; exact Still.rfl' c
+  | shutdown => rw [act_down_loop _ _ h (by simp) (by simp)]; exact Still.rfl' c
+  | forceClose => rw [act_down_loop _ _ h (by simp) (by simp)]; exact Still.rfl' c
+  | forceCloseDelay us => rw [act_down_loop _ _ h (by simp) (by simp)]; exact Still.rfl' c
+  | stopRead => rw [act_down_loop _ _ h (by simp) (by simp)]; exact Still.rfl' c
+  | startRead => rw [act_down_loop _ _ h (by simp) (by simp)]; exact Still.rfl' c
 
 theorem callback_still (c : Conn) (k : Cb) (e : Ev) (h : c.st = .kDisconnected) : Still c (callback c k e) := by
   unfold callback; split
-  · unfold actLoop; rw [act_down_loop _ _ (by exact h)]; exact ⟨rfl, rfl, rfl, rfl, rfl, rfl, rfl, rfl⟩
+  · unfold actLoop
+    exact Still.trans (b := { emit c e with hooks := dropHook k c.hooks }) ⟨rfl, rfl, rfl, rfl, rfl, rfl, rfl, rfl⟩
+      (act_down_still _ _ (by exact h))
   · exact ⟨rfl, rfl, rfl, rfl, rfl, rfl, rfl, rfl⟩
 
 /-- a functor run on a released connection neither queues anything nor revives it -/
@@ -632,7 +652,7 @@ theorem fireN_released (n : Nat) (c : Conn) (hr : Released c) : fireN c n = c :=
   | zero => rfl
   | succ n ih =>
     have : fireDelay c = c := by
-      unfold fireDelay; rw [if_pos hr.alive]; unfold actLoop; exact act_down_loop _ _ hr.st
+      unfold fireDelay; rw [if_pos hr.alive]; unfold actLoop; exact act_down_loop _ _ hr.st (by simp) (by simp)
     simp only [fireN, this]; exact ih
 
 theorem dispatch_released (c : Conn) (s : Src) (hr : Released c) : Still c (dispatch c s) := by
@@ -1043,6 +1063,8 @@ theorem act_evWrite (c : Conn) (f : Bool) (a : Act) (h : c.st ≠ .kConnected) :
     · unfold startReadInLoop; split
       · simp [enableReading, setEvents, chanUpdate_evWrite]
       · rfl
+  | setWc k => rfl
+  | setHwm k m => rfl
 
 theorem callback_evWrite (c : Conn) (k : Cb) (e : Ev) (h : c.st ≠ .kConnected) :
     (callback c k e).ch.evWrite = c.ch.evWrite := by
@@ -1712,6 +1734,8 @@ theorem act_keeps (c : Conn) (f : Bool) (a : Act) : Keeps c (act c f a) := by
     · exact Keeps.rfl' c
   | stopRead => simp only [act]; exact handOff_keeps _ _ _ _ _ (by simp) (stopReadInLoop_keeps _)
   | startRead => simp only [act]; exact handOff_keeps _ _ _ _ _ (by simp) (startReadInLoop_keeps _)
+  | setWc k => exact Keeps.same rfl rfl rfl rfl
+  | setHwm k m => exact Keeps.same rfl rfl rfl rfl
 
 theorem callback_keeps (c : Conn) (k : Cb) (e : Ev) : Keeps c (callback c k e) := by
   unfold callback; split
@@ -2070,7 +2094,7 @@ example :
     (iter demoBacklog [.conn 4]).outBuf = [3] ∧
     (pollOut demoBacklog 2).outBuf = [] ∧ (pollOut demoBacklog 2).ch.evWrite = false ∧
     (pollOut demoBacklog 2).wrote = [1, 2, 3] ∧
-    (pollOut demoBacklog 2).trace = [.up, .sysWrite 3 (.took 1), .sysWrite 2 (.took 1), .sysWrite 1 (.took 1), .wc] := by
+    (pollOut demoBacklog 2).trace = [.up, .sysWrite 3 (.took 1), .sysWrite 2 (.took 1), .sysWrite 1 (.took 1), .wc 1] := by
   decide
 
 /-- `drain_progress` needs more than "no `sendInLoop` queued": with `forceCloseInLoop` queued (here by
